@@ -188,7 +188,7 @@ class LTComponent(LTItem):
     def hoverlap(self, obj: "LTComponent") -> float:
         assert isinstance(obj, LTComponent), str(type(obj))
         if self.is_hoverlap(obj):
-            return min(abs(self.x0 - obj.x1), abs(self.x1 - obj.x0))
+            return min(self.x1, obj.x1) - max(self.x0, obj.x0)
         else:
             return 0
 
@@ -206,7 +206,7 @@ class LTComponent(LTItem):
     def voverlap(self, obj: "LTComponent") -> float:
         assert isinstance(obj, LTComponent), str(type(obj))
         if self.is_voverlap(obj):
-            return min(abs(self.y0 - obj.y1), abs(self.y1 - obj.y0))
+            return min(self.y1, obj.y1) - max(self.y0, obj.y0)
         else:
             return 0
 
